@@ -138,7 +138,7 @@ def run_one(seed, preset=None, tier="quick", want_case=False):
                 if k.startswith("data") and len(v) > len(tape.used.get(k, ())):
                     tape.used[k] = v
             sch = pick_scheduler(tape.sub("cfg%d" % i))
-            sched_kinds[sch[0]] = sched_kinds.get(sch[0], 0) + 1
+            sched_kinds[sch[0] + ("+eager" if sch[2].endswith("+eager") else "")] = sched_kinds.get(sch[0] + ("+eager" if sch[2].endswith("+eager") else ""), 0) + 1
             out = execute_once(engine, case.text, case.op_name, case.variables, plan, tape.sub("sched%d" % i),
                                sch[0], sch[1], sch[2], root_value=plan.root_value)
             metrics["fault_executions"] += 1
